@@ -424,6 +424,12 @@ func (p *parser) postfix() Expr {
 		case p.isOp("["):
 			p.next()
 			var lo, hi Expr
+			if p.isOp("*") && p.toks[p.p+1].kind == "op" && p.toks[p.p+1].text == "]" {
+				p.next()
+				p.next()
+				e = EIndex{e, EIdent{"*"}}
+				continue
+			}
 			if p.isOp(":") {
 				p.next()
 				if !p.isOp("]") {
@@ -516,6 +522,12 @@ func (p *parser) primary() Expr {
 			e := p.expr()
 			p.expect(")")
 			return e
+		}
+		if t.text == "[" && p.isOp("]") {
+			// a slice type used as an argument, e.g. elems([]uint32)
+			p.next()
+			te := p.typeExpr()
+			return EIdent{"[]" + te.String()}
 		}
 	}
 	p.fail("unexpected %q", t.text)
